@@ -243,12 +243,42 @@ fn run_body(h: &mut H, r: &mut Rng, prof: &Profile) {
             }
         }
     }
-    h.light = false;
     for wi in 0..NW {
-        if h.worlds[wi].is_some() {
-            h.begin("drop");
-            h.op_drop(wi, None);
+        if h.worlds[wi].is_none() { continue; }
+        if r.chance(60) {
+            // a LEAKED runtime-borrow guard (mem::forget) leaves a RefCell borrowed for good; the `&mut`
+            // API does not go through the RefCells, so removals, growth and destroying loops must not
+            // care. Light observation only from here on: the borrow-based read paths would refuse.
+            h.light = true;
+            let ai = pick_arch(r);
+            let ncols = with_arch!(ai, A => A::ncols());
+            h.begin("leak");
+            h.op_leak(wi, ai, r.below(ncols as u64) as usize, r.chance(50));
+            let ents: Vec<Tok> = live_of(h, wi).into_iter().filter(|t| arch_of_id((t.0 & 0xff) as u8) == Some(ai)).collect();
+            for t in ents.into_iter().take(3) {
+                let k = key_spec(r, Key::Ent(t));
+                h.begin("destroy");
+                h.op_destroy(wi, KeySpec { at: None, ..k }, None);
+            }
+            let room = {
+                let w = h.worlds[wi].as_ref().unwrap();
+                with_arch!(ai, A => { let a = A::arch(w); a.capacity() - a.len() })
+            };
+            for k in 0..(room.min(6) + 1) {
+                let p: Vec<i64> = (0..32).map(|i| (payload + 7 + k as i64) * 100 + i).collect();
+                h.begin("create");
+                h.op_create(wi, ai, &p, (k % 4) as u8, false);
+            }
+            let mut decide = HashMap::new();
+            for t in live_of(h, wi) {
+                if r.chance(40) { decide.insert(t, Step::ContinueDestroy); }
+            }
+            h.begin("loop");
+            h.op_loop(wi, 0, Mac::IterDestroy, &decide, Step::Continue, None, None);
         }
+        h.light = false;
+        h.begin("drop");
+        h.op_drop(wi, None);
     }
 }
 
